@@ -22,9 +22,9 @@ def main():
         sel = [a for a in sys.argv[2:] if not a.startswith("-")]
         if sel and name not in sel:
             continue
-        if u.trusted or (not sel and not u.__dict__.get("_mod", mod) == mod):
+        if u.trusted:
             continue
-        if not sel and not name_in_module(u, mod):
+        if not sel and u.module != "contracts." + mod:
             continue
         res = verify_unit(w, u, {"timeout_ms": 10000})
         print(f"== {name}: paths={res.paths} ended={res.ended} oblig={len(res.obligs)} "
